@@ -7,7 +7,7 @@
 // A scenario i is a chain of atoms (catalog.go) carrying the unique marker "#<i as 4 digits>#" from source<i>() to
 // sink<i>(x), each scenario in its own functions.  The program's main runs every scenario under all valuations of the 6
 // opaque conditions c(0..5); sink<i> deep-walks its argument reflectively and prints "HIT <i> <marker number>" for every
-// marker found.  Files written: go.mod, main.go, specs.json (dataflow contract making report opaque), config_bt.yaml (backtrace points = the sink calls), config.yaml (one taint problem: sources ^source[0-9]+$, sinks
+// marker found.  Files written: go.mod, main.go, specs.json (dataflow contract making report opaque), config_bt.yaml (backtrace points = the sink calls), config_multi.yaml (the same sources/sinks split over three taint-tracking problems), config.yaml (one taint problem: sources ^source[0-9]+$, sinks
 // ^sink[0-9]+$, sanitizers ^sanitize[0-9]+, package regex = module path) and manifest.json (scenarios with their atoms,
 // keys and source/sink line numbers).
 package main
@@ -185,8 +185,10 @@ import (
 	"sort"
 	"strconv"
 	"strings"
+	"sync"
 )
 
+var _ sync.Once
 var _ = bufio.NewReader
 var _ = bytes.NewBuffer
 var _ = json.Marshal
@@ -395,6 +397,28 @@ dataflow-specs:
 	return text, cfg, manifest{Module: module, Seed: seed, NConds: nConds, Scenarios: scs}, nil
 }
 
+// multiConfig splits the sources/sinks over THREE taint-tracking problems by the last digit of the scenario number (0-3, 4-6,
+// 7-9; a scenario's second source 5000+i falls into the same problem): the max-alarms counter is shared by all problems.
+func multiConfig(module string) string {
+	var b strings.Builder
+	b.WriteString("taint-tracking-problems:\n")
+	for _, cls := range []string{"[0-3]", "[4-6]", "[7-9]"} {
+		fmt.Fprintf(&b, `  -
+    sources:
+      - package: "^%s$"
+        method: "^source[0-9]*%s$"
+    sinks:
+      - package: "^%s$"
+        method: "^sink[0-9]*%s$"
+    sanitizers:
+      - package: "^%s$"
+        method: "^sanitize[0-9]+"
+`, module, cls, module, cls, module)
+	}
+	b.WriteString("dataflow-specs:\n  - \"specs.json\"\n")
+	return b.String()
+}
+
 // btConfig is the configuration for the backtrace analysis of the same program: every sink<i> call is a backtrace point.
 func btConfig(module string) string {
 	return fmt.Sprintf(`slicing-problems:
@@ -492,6 +516,7 @@ func main() {
 	must(os.WriteFile(filepath.Join(*out, "main.go"), []byte(text), 0o644))
 	must(os.WriteFile(filepath.Join(*out, "config.yaml"), []byte(cfg), 0o644))
 	must(os.WriteFile(filepath.Join(*out, "config_bt.yaml"), []byte(btConfig(*module)), 0o644))
+	must(os.WriteFile(filepath.Join(*out, "config_multi.yaml"), []byte(multiConfig(*module)), 0o644))
 	// the body of report (the reflective deep walk behind every sink) is declared opaque by a user dataflow contract: a
 	// sink is an end point, and keeping the traversal out of package reflect keeps the runs short
 	must(os.WriteFile(filepath.Join(*out, "specs.json"), []byte(fmt.Sprintf(`[ { "ObjectPath": %q, "Methods": { "report": { "Args": [ [ 0 ], [ 1 ] ], "Rets": [ [ ], [ ] ] } } } ]
